@@ -8,7 +8,7 @@ use serde::{Deserialize, Serialize};
 
 use crate::{
     campaign::CaseReport,
-    common::{flag_waker, Flag, Prop, Stop, R},
+    common::{flag_waker, Flag, PendingMark, Prop, Stop, R},
     obs_flavor::{AsyncF, Flavor, PollRes, SyncF},
     val::{oval_hash, registry_reset, registry_snapshot, MOVal, OVal},
 };
@@ -81,6 +81,9 @@ pub struct ObsCase {
     /// replay of the known finding K3: async counts are judged exactly
     #[serde(default)]
     pub strict: bool,
+    /// all polls of the case use one waker (one task driving every subscriber)
+    #[serde(default)]
+    pub shared_waker: bool,
 }
 
 #[derive(Clone, Debug, PartialEq)]
@@ -132,7 +135,7 @@ struct SubM {
     /// number of notifying updates since this subscriber last observed
     updates_since: u32,
     last_was_get: bool,
-    last_pending: Option<Arc<Flag>>,
+    last_pending: Option<PendingMark>,
 }
 
 struct W<F: Flavor> {
@@ -152,6 +155,7 @@ struct W<F: Flavor> {
     allow_guards: bool,
     trace: Vec<Ev>,
     ignored_other: u32,
+    shared: Option<Arc<Flag>>,
 }
 
 fn pick(ix: u8, live: &[usize]) -> Option<usize> {
@@ -308,7 +312,7 @@ impl<F: Flavor> W<F> {
 
     fn poll_sub(&mut self, i: usize, via: Via) -> R {
         self.f.polls += 1;
-        let flag = Flag::new();
+        let flag = self.shared.clone().unwrap_or_else(Flag::new);
         let w = flag_waker(&flag);
         let sub = self.subs[i].as_mut().unwrap();
         let got = match via {
@@ -335,7 +339,7 @@ impl<F: Flavor> W<F> {
         }
         let m = self.msubs[i].as_mut().unwrap();
         match &got {
-            PollRes::Pending => m.last_pending = Some(flag),
+            PollRes::Pending => m.last_pending = Some(PendingMark::new(&flag)),
             PollRes::Item(_) => {
                 if m.updates_since >= 2 {
                     self.f.ready_after_2 += 1;
@@ -805,6 +809,7 @@ fn run_flavor<F: Flavor>(case: &ObsCase, prop: Prop) -> R<(CaseReport, OFeat, Ve
         allow_guards: case.guards,
         trace: vec![],
         ignored_other: 0,
+        shared: if case.shared_waker { Some(Flag::new()) } else { None },
     };
     let v = OVal::new(case.init.0, case.init.1);
     w.owners.push(Some(Box::new(if case.start_shared { Own::S(F::new_shared(v)) } else { Own::U(F::new_unique(v)) })));
@@ -885,6 +890,9 @@ fn classes(f: &OFeat, case: &ObsCase) -> Vec<&'static str> {
     }
     if f.k3_seen > 0 {
         c.push("async_counts_match_known_finding_K3");
+    }
+    if case.shared_waker {
+        c.push("one_waker_shared_by_all_polls");
     }
     c.push(match case.flavour {
         Fl::Sync => "flavour_sync",
@@ -1047,7 +1055,15 @@ pub fn op(g: &ObsGen) -> BoxedStrategy<ObsOp> {
 pub fn case(g: &ObsGen) -> BoxedStrategy<ObsCase> {
     let gp = g.guards_pct;
     (proptest::sample::select(g.flavours.clone()), any::<bool>(), (0u8..3, 0u8..3), 0u32..100, proptest::collection::vec(op(g), 0..=g.max_ops))
-        .prop_map(move |(flavour, start_shared, init, gd, ops)| ObsCase { flavour, start_shared, init, guards: gd < gp && flavour == Fl::Sync, ops, strict: false })
+        .prop_map(move |(flavour, start_shared, init, gd, ops)| ObsCase {
+            flavour,
+            start_shared,
+            init,
+            guards: gd < gp && flavour == Fl::Sync,
+            ops,
+            strict: false,
+            shared_waker: gd % 3 == 0,
+        })
         .boxed()
 }
 
